@@ -269,15 +269,16 @@ Definition closed_events (before : state) (cmds : list cmd) (after : state) : li
 (* ---- one loop iteration, from the gate to the next gate ---- *)
 Record iter := mkIter { i_now : N; i_cmds : list cmd }.
 
+(* pop_timers_till(now), then "Remove hostname resolvers with expired timeouts" *)
+Definition timeout_phase (now : N) (s : state) : state :=
+  mkState now (filter (fun v => timer_kept v now) (st_timers s)) (st_retrans s)
+          (filter (fun e => negb (expired now e)) (st_owners s)) (st_next_ip s) (st_ip_ival s) true.
+
 Definition iterate (s : state) (it : iter) : state * out :=
   let now := i_now it in
-  (* pop_timers_till(now) *)
-  let timers1 := filter (fun v => timer_kept v now) (st_timers s) in
-  (* resolver deadlines *)
   let ev_t := timeout_events now (st_owners s) in
   let hz := hazard now (st_owners s) (st_retrans s) in
-  let owners1 := filter (fun e => negb (expired now e)) (st_owners s) in
-  let s1 := mkState now timers1 (st_retrans s) owners1 (st_next_ip s) (st_ip_ival s) true in
+  let s1 := timeout_phase now s in
   (* commands *)
   let '(s2, p_c, ev_c) := run_cmds now (i_cmds it) s1 in
   if st_alive s2 then
